@@ -308,7 +308,8 @@ where
     C: Fn(u64, &mut Stats) -> Result<(), Failure> + Sync,
 {
     let stop = AtomicBool::new(false);
-    let next = std::sync::atomic::AtomicU64::new(0);
+    // a mutex rather than AtomicU64: 32-bit big-endian targets (interpreted stages) have no 64-bit atomics
+    let next = std::sync::Mutex::new(0u64);
     let chunk = (n / (threads as u64 * 64)).clamp(1, 1 << 20);
     let results: Vec<(Stats, Option<Failure>)> = std::thread::scope(|s| {
         let handles: Vec<_> = (0..threads)
@@ -325,7 +326,12 @@ where
                             if stop.load(Ordering::Relaxed) {
                                 return (stats, None);
                             }
-                            let lo = next.fetch_add(chunk, Ordering::Relaxed);
+                            let lo = {
+                                let mut g = next.lock().unwrap();
+                                let v = *g;
+                                *g = v.saturating_add(chunk);
+                                v
+                            };
                             if lo >= n {
                                 return (stats, None);
                             }
